@@ -2,12 +2,13 @@ import sys; sys.path.insert(0,'/verif/lib')
 from engine import *
 e=Engine(keep=True); e.ensure_ll2c()
 obls=[]
-for n in (4,7):
-  for heap in (False,):
-    u=Unit("default",["vk_agg_parse_ipv4"])
-    obls.append(Obl(f"ipv4_agg_n{n}_{'sso' if heap else 'heap'}","ipv4_parse.c",[u],defs={"N":n,"KERNEL":"F_vk_agg_parse_ipv4"},unwind=n+2, unwindset=["ref_ipv4_parse.2:4","ref_ipv4_parse.3:4"], no_heap=heap, timeout=300, mem_gb=12))
-    u=Unit("default",["vk_url_parse_ipv4"])
-    obls.append(Obl(f"ipv4_url_n{n}","ipv4_parse.c",[u],defs={"N":n,"KERNEL":"F_vk_url_parse_ipv4"},unwind=n+2, unwindset=["ref_ipv4_parse.2:4","ref_ipv4_parse.3:4"], timeout=300, mem_gb=12))
+CFG=sys.argv[1]; HEAP=(CFG!='default')
+for (op,root,m,defs) in [("upd_user","vk_st_update_base_username",2,{}),("set_username","vk_st_set_username",1,{"OP_FRAME_ONLY":1}),("clear_search","vk_st_clear_search",0,{})]:
+  for n in (10,):
+    u=Unit(CFG,[root],stubs=[STR_REPLACE])
+    # ws://u@h:1/p?q  : P=3 UE=6 HS=6 HE=8 port=1 PS=10 SS=12->omitted
+    d={"N":n,"M":m,"BN":15,"KERNEL":"F_"+root,}; d.update(defs)
+    obls.append(Obl(f"step_{op}_{CFG}_n{n}","step.c",[u],defs=d,unwind=17, timeout=900, mem_gb=14, no_heap=not HEAP, maxcpy=16))
 rs=e.run_all(obls)
 for r in rs: print(r.obl.name,r.status,r.detail[:300],round(r.time_s),r.rss_kb,pretty_inputs(r.witness_sample) if r.witness_sample else None, pretty_inputs(r.cex) if r.cex else None, (r.replay or {}).get('verdict'))
 print(e.work)
